@@ -518,6 +518,63 @@ def run_cliflags(facts, cg):
                     findings.append({'rule': 'R-CLIFLAGS', 'key': 'R-CLIFLAGS|%s|flag-overwritten:%s' % (b.q, st['pl']['p'][-1]['n']), 'function': b.q,
                                      'what': 'option %s is stored to at %s after the command line was parsed: what decides whether an existing output may be touched is no '
                                              'longer what the user asked for' % (st['pl']['p'][-1]['n'], st['loc'])})
+    # the remote reader is set up as the command line says, on every path: the request carries --http-header, the reader
+    # --http-retry-count and --http-retry-delay (whether or not a timeout was given)
+    from ..terms import var_alternatives
+    from ..paths import Explorer, Rule
+    n_remote = 0
+    for b in facts.bodies.values():
+        if b.crate != 'bita' or b.generated:
+            continue
+        for bi, t in b.calls():
+            if 'q' not in t['callee'] or not callee_q(t).endswith('HttpReader::from_request') or not t['args']:
+                continue
+            n_remote += 1
+            req = simplify(T.of_operand(b, t['args'][0]))
+            alts = [req] + var_alternatives(T, b, req)
+            def carries_headers(x):
+                return any(nd[0] == 'call' and nd[1].endswith('RequestBuilder::headers') for nd in walk(x))
+            def self_ref(x):
+                return any(nd[0] == 'var' for nd in walk(x))
+            bad = [x for x in alts[1:] or alts if not carries_headers(x) and not self_ref(x)]
+            if len(alts) == 1 and not carries_headers(req):
+                bad = [req]
+            if bad:
+                findings.append({'rule': 'R-CLIFLAGS', 'key': 'R-CLIFLAGS|%s|remote:headers-lost' % b.q.split('::{closure')[0], 'function': b.q,
+                                 'what': 'on some path the request handed to the HTTP reader at %s is not the one that carries the --http-header values (%s): a server that '
+                                         'wants them refuses every request' % (t['loc'], show(bad[0])[:80])})
+            # retries / retry_delay on every path from here to the first other use of the reader
+            missing = []
+
+            class Wired(Rule):
+                init = (False, False)
+
+                def on_term(self_, b_, bi_, t_, stt):
+                    if t_['k'] != 'call' or 'q' not in t_['callee']:
+                        return stt
+                    q_ = callee_q(t_)
+                    if q_.endswith('HttpReader::retries'):
+                        return (True, stt[1])
+                    if q_.endswith('HttpReader::retry_delay'):
+                        return (stt[0], True)
+                    if any(a['k'] == 'move' and not a['pl']['p'] and b_.lty(a['pl']['l']).get('adt') == 'bitar::archive_reader::http_reader::HttpReader' for a in t_['args']):
+                        if not all(stt):
+                            missing.append(t_['loc'])
+                        return []
+                    return stt
+
+                def on_exit(self_, b_, bi_, stt, outcome):
+                    if b_.lty(0).get('adt') == 'bitar::archive_reader::http_reader::HttpReader' and not all(stt):
+                        missing.append(b_.blocks[bi_]['term']['loc'])
+            if t.get('t') is not None:
+                Explorer(b, Wired(), start=t['t']).run()
+            instances.append({'rule': 'R-CLIFLAGS(remote)', 'function': b.q, 'at': t['loc'], 'request_alternatives': len(alts), 'paths_without_retry_settings': len(missing)})
+            if missing:
+                findings.append({'rule': 'R-CLIFLAGS', 'key': 'R-CLIFLAGS|%s|remote:retry-not-wired' % b.q.split('::{closure')[0], 'function': b.q,
+                                 'what': 'the HTTP reader built at %s reaches its user at %s without .retries(..) and .retry_delay(..) on some path: --http-retry-count '
+                                         'has no effect there' % (t['loc'], missing[0])})
+    if n_remote < 2:
+        findings.append({'rule': 'R-CLIFLAGS', 'key': 'R-CLIFLAGS|-|floor-remote', 'function': '-', 'what': 'expected the HTTP readers of clone and info to be built in the tool, found %d (cannot decide)' % n_remote})
     if n_pin < 1:
         findings.append({'rule': 'R-CLIFLAGS', 'key': 'R-CLIFLAGS|-|floor-pin', 'function': '-', 'what': 'the header_checksum option of clone was not found in the argument parser (cannot decide)'})
     if n < 3:
